@@ -117,21 +117,118 @@ Theorem C33_choices_weights_member :
 Proof. exact choices_weights_member. Qed.
 Print Assumptions C33_choices_weights_member.
 
-(** Uniformity by counting, bound in the statement (n <= 64): a tape holding exactly one pass of k bits is accepted
-    iff it encodes a value v < n, the output is v and the k bits are consumed; every v < n has such a tape.
-    (The unbounded version and the induction over restarts are missing.) *)
-Theorem C33_randbelow_one_pass_bounded_partial :
-  forall n : Z, (1 <= n <= 64)%Z ->
-    forall tp, In tp (all_tapes (bit_length (n - 1))) ->
-      randbelow 100 n tp = if (from_bits tp <? n)%Z then Some (from_bits tp, []) else None.
-Proof. exact randbelow_one_pass_bounded. Qed.
-Print Assumptions C33_randbelow_one_pass_bounded_partial.
+(** Uniformity by counting, for EVERY n >= 1; k = rb_k n = (n-1).bit_length() as the code computes it.
+    (1) A tape holding exactly one pass (k bits) is accepted iff its value (little endian, as runtime.from_bits
+        combines the bits) is < n; the output is that value and all k bits are consumed. *)
+Theorem C33_randbelow_one_pass :
+  forall (fuel : nat) (n : Z) (tp : tape),
+    (1 <= n)%Z -> bits tp -> length tp = rb_k n -> rb_k n < fuel ->
+    randbelow fuel n tp = if (from_bits tp <? n)%Z then Some (from_bits tp, []) else None.
+Proof. exact randbelow_one_pass. Qed.
+Print Assumptions C33_randbelow_one_pass.
 
-Theorem C33_randbelow_one_pass_onto_bounded_partial :
-  forall n : Z, (1 <= n <= 64)%Z -> forall v : Z, (0 <= v < n)%Z ->
-    exists tp, In tp (all_tapes (bit_length (n - 1))) /\ randbelow 100 n tp = Some (v, []).
-Proof. exact randbelow_one_pass_onto_bounded. Qed.
-Print Assumptions C33_randbelow_one_pass_onto_bounded_partial.
+(** (2) bits <-> value is a bijection between k-bit lists and [0, 2^k) ... *)
+Theorem C33_bits_value_bijection :
+  forall k : nat,
+    (forall x, bits x -> length x = k -> (0 <= from_bits x < 2 ^ Z.of_nat k)%Z /\ tape_of k (from_bits x) = x) /\
+    (forall v, (0 <= v < 2 ^ Z.of_nat k)%Z ->
+       bits (tape_of k v) /\ length (tape_of k v) = k /\ from_bits (tape_of k v) = v).
+Proof. exact bits_value_bijection. Qed.
+Print Assumptions C33_bits_value_bijection.
+
+(** ... hence for each v < n there is EXACTLY ONE one-pass tape accepted with output v: the accepted pass is uniform. *)
+Theorem C33_randbelow_uniform_one_pass :
+  forall (fuel : nat) (n v : Z), (1 <= n)%Z -> (0 <= v < n)%Z -> rb_k n < fuel ->
+    exists! tp, length tp = rb_k n /\ bits tp /\ randbelow fuel n tp = Some (v, []).
+Proof. exact randbelow_one_pass_unique. Qed.
+Print Assumptions C33_randbelow_uniform_one_pass.
+
+(** the accepted one-pass tapes are exactly the n encodings of 0..n-1 among the 2^k tapes *)
+Theorem C33_randbelow_one_pass_accepts :
+  forall (fuel : nat) (n : Z) (tp : tape), (1 <= n)%Z -> bits tp -> length tp = rb_k n -> rb_k n < fuel ->
+    (exists r, randbelow fuel n tp = Some r) <-> (exists v, (0 <= v < n)%Z /\ tp = tape_of (rb_k n) v).
+Proof. exact randbelow_one_pass_accepts. Qed.
+Print Assumptions C33_randbelow_one_pass_accepts.
+
+(** (3) Every pass, any remaining tape: at the start of a pass (register x of k bits, h = 1, i = k) the loop returns x
+    iff value(x) < n; otherwise it rejects at the position j of [rb_pass], keeps x[:j], draws k-j bits and is at the
+    start of a pass again (same form of state: this is the induction step over restarts). *)
+Theorem C33_randbelow_pass_step :
+  forall (n : Z) (fuel : nat) (x : list Z) (tp : tape),
+    (2 <= n)%Z -> bits x -> length x = rb_k n -> rb_k n < fuel ->
+    rb_loop fuel (n - 1) (rb_k n) (rb_t n) x 1 (rb_k n) tp =
+    if (from_bits x <? n)%Z then Some (x, tp)
+    else match rb_pass (n - 1) (rb_t n) x 1 (S (rb_k n)) (rb_k n) with
+         | Some j => match draw (rb_k n - j) tp with
+                     | None => None
+                     | Some (nb, tp') =>
+                       rb_loop (fuel - (rb_k n - j)) (n - 1) (rb_k n) (rb_t n) (firstn j x ++ nb) 1 (rb_k n) tp'
+                     end
+         | None => None
+         end.
+Proof. exact randbelow_pass_step. Qed.
+Print Assumptions C33_randbelow_pass_step.
+
+(** Conditional on a rejection at j: for EVERY k-bit string w = (retained low j bits ++ k-j fresh bits) the same high
+    part of the register still rejects at j, the register of the next pass is w, and that pass accepts iff value(w) < n. *)
+Theorem C33_randbelow_next_pass :
+  forall (n : Z) (fuel : nat) (x : list Z) (j : nat) (w : list Z), (2 <= n)%Z ->
+    bits x -> length x = rb_k n -> rb_pass (n - 1) (rb_t n) x 1 (S (rb_k n)) (rb_k n) = Some j ->
+    bits w -> length w = rb_k n -> 2 * rb_k n < fuel ->
+    rb_loop fuel (n - 1) (rb_k n) (rb_t n) (firstn j w ++ skipn j x) 1 (rb_k n) (skipn j w) =
+    if (from_bits w <? n)%Z then Some (w, []) else None.
+Proof. exact randbelow_next_pass. Qed.
+Print Assumptions C33_randbelow_next_pass.
+
+(** ... so for each v < n EXACTLY ONE (retained ++ fresh) string makes the pass after the rejection accept with v:
+    conditional on acceptance at any pass, the output is uniform on range(n). *)
+Theorem C33_randbelow_uniform_next_pass :
+  forall (n : Z) (fuel : nat) (x : list Z) (j : nat) (v : Z), (2 <= n)%Z ->
+    bits x -> length x = rb_k n -> rb_pass (n - 1) (rb_t n) x 1 (S (rb_k n)) (rb_k n) = Some j ->
+    (0 <= v < n)%Z -> 2 * rb_k n < fuel ->
+    exists! w, length w = rb_k n /\ bits w /\
+      exists r, rb_loop fuel (n - 1) (rb_k n) (rb_t n) (firstn j w ++ skipn j x) 1 (rb_k n) (skipn j w) = Some (r, [])
+                /\ from_bits r = v.
+Proof. exact randbelow_next_pass_unique. Qed.
+Print Assumptions C33_randbelow_uniform_next_pass.
+
+(** the two-pass statement from the initial tape *)
+Theorem C33_randbelow_two_pass :
+  forall (n : Z) (fuel : nat) (x : list Z) (j : nat) (w : list Z), (2 <= n)%Z ->
+    bits x -> length x = rb_k n -> rb_pass (n - 1) (rb_t n) x 1 (S (rb_k n)) (rb_k n) = Some j ->
+    bits w -> length w = rb_k n -> 2 * rb_k n < fuel ->
+    randbelow fuel n ((firstn j w ++ skipn j x) ++ skipn j w) =
+    if (from_bits w <? n)%Z then Some (from_bits w, []) else None.
+Proof. exact randbelow_two_pass. Qed.
+Print Assumptions C33_randbelow_two_pass.
+
+(** the same counting for getrandbits (= random) and randrange/randint *)
+Theorem C33_getrandbits_uniform :
+  forall (k : nat) (v : Z), (0 <= v < 2 ^ Z.of_nat k)%Z ->
+    exists! tp, length tp = k /\ bits tp /\ getrandbits k tp = Some (v, []).
+Proof. exact getrandbits_unique. Qed.
+Print Assumptions C33_getrandbits_uniform.
+
+Theorem C33_randrange_uniform_one_pass :
+  forall (fuel : nat) (start stop step r : Z),
+    step <> 0%Z -> (0 <= r < range_len start stop step)%Z -> rb_k (range_len start stop step) < fuel ->
+    exists! tp, length tp = rb_k (range_len start stop step) /\ bits tp /\
+                randrange fuel start stop step tp = Some ((start + r * step)%Z, []).
+Proof. exact randrange_one_pass_unique. Qed.
+Print Assumptions C33_randrange_uniform_one_pass.
+
+(** Non-vacuity, n = 5 (k = 3, b = 4 = 100b, t = 1): the 8 one-pass tapes by value; 0..4 accepted with that value,
+    5, 6, 7 rejected (at bit 1 resp. 0); after the rejection of 7 = [1;1;1] at j = 1 with w = enc 3 = [1;1;0] the
+    tape (w[:1] ++ x[1:]) ++ w[1:] = [1;1;1] ++ [1;0] is accepted with 3. *)
+Example C33_uniform_nonvacuous :
+  rb_k 5 = 3 /\ rb_t 5 = 1 /\
+  map (fun v => randbelow 10 5 (tape_of 3 (Z.of_nat v))) (seq 0 8) =
+    [Some (0, []); Some (1, []); Some (2, []); Some (3, []); Some (4, []); None; None; None]%Z /\
+  map (fun v => rb_pass 4 1 (tape_of 3 (Z.of_nat v)) 1 4 3) (seq 0 8) =
+    [None; None; None; None; None; Some 0; Some 1; Some 1] /\
+  randbelow 10 5 [1; 1; 1; 1; 0]%Z = Some (3%Z, []) /\
+  randrange 10 2 17 3 (tape_of 3 4) = Some (14%Z, []).
+Proof. vm_compute. repeat split; reflexivity. Qed.
 
 (** The bits retained on a restart (x[:j]) are not inspected by the rejecting pass: any x' that agrees with x
     from position j upwards is rejected at the same position j. *)
